@@ -168,7 +168,8 @@ def kernel_crosscheck(model, workdir):
         f.write(";\n".join('  ("%s", %s, %s)' % (op, coq_term(parse(rq)), coq_term(parse(rp)))
                             for op, rq, rp in cases))
         f.write("\n].\nEval vm_compute in (mismatches cases).\n")
-    r = subprocess.run(["coqc", "-Q", os.path.join(COQ_DIR, "theories"), "NGS", path],
+    r = subprocess.run(["coqc", "-Q", os.path.join(COQ_DIR, "theories"), "NGS",
+                        "-Q", os.path.join(COQ_DIR, "generated"), "NGSGen", path],
                        stdout=subprocess.PIPE, stderr=subprocess.STDOUT, timeout=3000,
                        preexec_fn=_unlimit_stack)
     out = r.stdout.decode()
